@@ -32,11 +32,49 @@ pub async fn lib_compress(source: Arc<Vec<u8>>, spec: &LibCompressSpec) -> Resul
         metadata: spec.metadata.iter().cloned().collect::<BTreeMap<_, _>>(),
     };
     let input = FragSource::new(source, spec.frag.clone(), spec.pend.clone());
+    // Half of the in-memory sinks accept only part of what they are offered per call (a
+    // socket, a pipe, a rate-limited writer) and sometimes say Pending first.
+    let short = match &spec.frag {
+        crate::inst::FragPlan::Random { seed, .. } => seed % 2 == 1,
+        _ => false,
+    };
+    if short {
+        let mut out = ShortSink { data: Vec::new(), calls: 0 };
+        bitar::api::compress::create_archive(input, &mut out, &opts)
+            .await
+            .map_err(|e| format!("create_archive: {:?}", e))?;
+        return Ok(out.data);
+    }
     let mut out: Vec<u8> = Vec::new();
     bitar::api::compress::create_archive(input, &mut out, &opts)
         .await
         .map_err(|e| format!("create_archive: {:?}", e))?;
     Ok(out)
+}
+
+/// An AsyncWrite that takes at most a few bytes per call and returns Pending now and then.
+pub struct ShortSink {
+    pub data: Vec<u8>,
+    calls: u64,
+}
+
+impl tokio::io::AsyncWrite for ShortSink {
+    fn poll_write(mut self: std::pin::Pin<&mut Self>, cx: &mut std::task::Context<'_>, buf: &[u8]) -> std::task::Poll<std::io::Result<usize>> {
+        self.calls += 1;
+        if self.calls % 7 == 3 {
+            cx.waker().wake_by_ref();
+            return std::task::Poll::Pending;
+        }
+        let n = buf.len().min(1 + (self.calls as usize * 37) % 4000);
+        self.data.extend_from_slice(&buf[..n]);
+        std::task::Poll::Ready(Ok(n))
+    }
+    fn poll_flush(self: std::pin::Pin<&mut Self>, _cx: &mut std::task::Context<'_>) -> std::task::Poll<std::io::Result<()>> {
+        std::task::Poll::Ready(Ok(()))
+    }
+    fn poll_shutdown(self: std::pin::Pin<&mut Self>, _cx: &mut std::task::Context<'_>) -> std::task::Poll<std::io::Result<()>> {
+        std::task::Poll::Ready(Ok(()))
+    }
 }
 
 /// Same, but the archive is written through a buffering writer handed over BY VALUE
